@@ -327,7 +327,7 @@ impl Phase for Pairs {
             },
             8 => {
                 // a value-producing snippet of each type, so that every Ok variant meets every entry point
-                r.pick(&["\"str\"", "4", "2.5", "true", "(1, 2.5, \"x\")", "()", "x = 3", "1;", "len(\"abc\")", "1/0", "nosuch(1)", "u", "5 + 1.0", "\"a\" + \"b\"", "(1,2) == (1,2)", "!true", "x0", "x1 = x0", "min(4, 2)", "len(\"abc\") + 1", "typeof(x)", "max(1, 3) == 3", "x", "y", "x2"])
+                r.pick(&["\"str\"", "4", "2.5", "true", "(1, 2.5, \"x\")", "()", "x = 3", "1;", "len(\"abc\")", "1/0", "nosuch(1)", "u", "5 + 1.0", "\"a\" + \"b\"", "(1,2) == (1,2)", "!true", "x0", "x1 = x0", "min(4, 2)", "len(\"abc\") + 1", "typeof(x)", "max(1, 3) == 3", "x", "y", "x2", "math::pi", "math::e + 1", "math::tau", "PI", "E", "pi", "e", "nan", "inf", "a = math::pi", "answer", "version", "_"])
                     .to_string()
             },
             9 if r.chance(1, 2) => {
@@ -348,6 +348,19 @@ impl Phase for Pairs {
                 format!("{}{}{}{}", pre, sign, body, post)
             },
             _ => hostile_string(r, 24),
+        };
+        // a byte-order mark or zero-width space in front is part of the first word, for every entry point alike
+        let src = if r.chance(1, 25) { format!("{}{}", r.pick(&["\u{feff}", "\u{200b}", "\u{feff} "]), src) } else { src };
+        // deep nesting (130-900 levels, inside the 4096-character bound): every entry point or none
+        let src = if r.chance(1, 60) {
+            let d = r.range(130, 900);
+            match r.below(3) {
+                0 => format!("{}1{}", "(".repeat(d), ")".repeat(d)),
+                1 => format!("{}x{}", "id(".repeat(d.min(600)), ")".repeat(d.min(600))),
+                _ => format!("{}true", "!".repeat(d)),
+            }
+        } else {
+            src
         };
         let model = random_model(r);
         let log = observe::new_log();
